@@ -33,7 +33,7 @@ Definition decode (b : N) : fval :=
     let m := if (ex =? 0)%N then frac else (frac + 2 ^ 52)%N in
     let e := if (ex =? 0)%N then (-1074)%Z else (Z.of_N ex - 1075)%Z in
     let q := inject_Z (Z.of_N m) * pow2Q e in
-    FFin (if neg then - q else q).
+    FFin (Qred (if neg then - q else q)).
 
 (* ---------------------------------------------------------------- recorded and reported occurrences *)
 
@@ -52,7 +52,7 @@ Definition place_of (v : fval) : place :=
               else if Qle_bool (inject_Z (2 ^ 54)) q then PTop else PVal q
   end.
 
-Definition qdiv_n (q : Q) (n : N) : Q := q / inject_Z (Z.of_N n).
+Definition qdiv_n (q : Q) (n : N) : Q := Qred (q / inject_Z (Z.of_N n)).
 
 Definition fval_div (v : fval) (n : N) : fval :=
   match v with FFin q => FFin (qdiv_n q n) | other => other end.
@@ -91,12 +91,33 @@ Definition place_le (a b : place) : bool :=
   | PTop, _ => false
   end.
 
-Fixpoint insert_place (p : place * N) (l : list (place * N)) : list (place * N) :=
-  match l with
-  | [] => [p]
-  | q :: r => if place_le (fst p) (fst q) then p :: q :: r else q :: insert_place p r
+(* merge sort (n log n comparisons of exact rationals) *)
+Fixpoint merge_places (fuel : nat) (a b : list (place * N)) : list (place * N) :=
+  match fuel with
+  | O => a ++ b
+  | Datatypes.S f =>
+    match a, b with
+    | [], _ => b
+    | _, [] => a
+    | x :: a', y :: b' => if place_le (fst x) (fst y) then x :: merge_places f a' b else y :: merge_places f a b'
+    end
   end.
-Definition sort_places (l : list (place * N)) : list (place * N) := fold_right insert_place [] l.
+Fixpoint split_places (l : list (place * N)) : list (place * N) * list (place * N) :=
+  match l with
+  | x :: y :: r => let '(a, b) := split_places r in (x :: a, y :: b)
+  | other => (other, [])
+  end.
+Fixpoint sort_places_fuel (fuel : nat) (l : list (place * N)) : list (place * N) :=
+  match fuel with
+  | O => l
+  | Datatypes.S f =>
+    match l with
+    | [] | [_] => l
+    | _ => let '(a, b) := split_places l in
+           merge_places (length l) (sort_places_fuel f a) (sort_places_fuel f b)
+    end
+  end.
+Definition sort_places (l : list (place * N)) : list (place * N) := sort_places_fuel (length l) l.
 
 (* a reported observation: Repeated { total, occurrences } *)
 Definition reported_value (total_bits occ : N) : option Q :=
@@ -197,6 +218,16 @@ Definition close_to (r k : Q) : bool := Qle_bool (Qabs (r - k)) (Qabs k * (1 # (
 Definition exact_ints (ins : list sobs) : bool :=
   forallb (fun o => match o with SU v => (v <=? 2 ^ 53)%N | _ => true end) ins.
 
+(* Two different recorded values closer than 2^-48 (relative) cannot be told apart from the totals of their
+   runs (total = value * count is rounded): such inputs are left to the bit-exact mechanism comparison. *)
+Definition apart (a b : Q) : bool :=
+  Qeq_bool a b || negb (Qle_bool (Qabs (a - b)) ((Qabs a + Qabs b) * (1 # (2 ^ 48)))).
+Fixpoint well_separated (l : list Q) : bool :=
+  match l with
+  | [] => true
+  | a :: r => forallb (apart a) r && well_separated r
+  end.
+
 (* products value * count stay finite when |value| <= 2^1000 and the count fits in u64 *)
 Definition moderate (l : list (option Q * N)) : bool :=
   forallb (fun p => match fst p with Some q => Qle_bool (Qabs q) (inject_Z (2 ^ 1000)) | None => true end) l.
@@ -204,7 +235,7 @@ Definition moderate (l : list (option Q * N)) : bool :=
 Definition sm_holds (ins : list sobs) (outs : list (N * N)) : bool :=
   if has_repeated ins then true else
   let recs := flat_map sm_recorded (compress ins) in
-  if negb (moderate recs && exact_ints ins) then true else
+  if negb (moderate recs && exact_ints ins && well_separated (keep_some (map fst recs))) then true else
   let runs := map (fun o => (match decode (fst o) with
                              | FFin t => Some (qdiv_n t (snd o))
                              | FInf neg => sm_key (FInf neg)
@@ -238,9 +269,10 @@ Definition run_value (o : N * N) : option Q :=
 
 (* re-aggregating closed histograms into the same kind of strategy changes neither counts nor reported
    values: the final runs are the closed runs with equal reported values merged, nothing else *)
-Definition reagg_holds (closed final : list (N * N)) : bool :=
+Definition reagg_holds (check_separation : bool) (closed final : list (N * N)) : bool :=
   match all_some (map run_value closed), all_some (map run_value final) with
   | Some cs, Some fs =>
+      if check_separation && negb (well_separated cs) then true else
       let crs := combine cs (map snd closed) in
       let frs := combine fs (map snd final) in
       strictly_ascending fs &&
